@@ -35,6 +35,7 @@ def run(prog, rep):
     rep.expect_min("C17.result", 3)
     rep.expect_min("C17.default", 2)
     rep.expect_min("C17.inrange", 3)
+    rep.expect_min("C17.float", 2)
     rep.expect_min("C17.all", 1)
     from .purity import row as _stateless_row
     rep.part(_stateless_row, prog, rep, "C17", 2)
@@ -49,8 +50,10 @@ def design(prog, rep):
     q = "virocon.utils.calculate_design_conditions"
     fn = prog.func(q)
     rep.analysed(fn)
-    b = builder(prog, fn, inline=False, guarded=True)
-    pcs = path_conditions(prog, fn, b)
+    from vstat.terms import ConvTransparent, ConvTransparentPC
+    # np.asarray(contour.coordinates, dtype=float): the values are the contour's; that they ARE converted is the obligation ':float' below
+    b = ConvTransparent(builder(prog, fn, inline=False, guarded=True))
+    pcs = ConvTransparentPC(path_conditions(prog, fn, b._b))
     cfg = cfg_of(fn)
     XI, YI = swap_map(fn, b, rep, "", q)
     coords = ("attr", P("contour"), "coordinates")
@@ -67,6 +70,15 @@ def design(prog, rep):
     if len(t[2]) != 4:
         raise AnalysisError(f"{q}: intersection must get four arguments")
     x1, y1, px, py = t[2]
+    # differences and negations are taken of the coordinates: unsigned or narrow integers wrap around (a uint8 square probed at x = 2 gives ordinate -0.0,
+    # with swap_axis the abscissa is dropped), so the contour's coordinates must be converted to float before they are used
+    raw_t = b._b.term(st.value, st)
+    fl = (G("float"), G("numpy.float64"), G("numpy.double"))
+    conv_ok = any(w[0] == "call" and w[1] in (G("numpy.asarray"), G("numpy.array")) and w[2] == (coords,) and any(k == "dtype" and v in fl for k, v in w[3]) for w in walk(raw_t)) \
+        and not any(w == ("col", coords, XI) or w == ("col", coords, YI) for w in walk(raw_t))
+    rep.check(conv_ok, "C17.float", f"{q}:coordinates", site, "the coordinates are converted to float before they are used",
+              "contour.coordinates is used in its own dtype: np.max(x1) - np.min(x1), np.diff and the negations in intersection() wrap around for unsigned / narrow integer "
+              "coordinates - calculate_design_conditions of the uint8 square [[0,0],[4,0],[4,4],[0,4]] at x = 2 returns [[2, -0.0]] instead of [[2, 4]]; use np.asarray(..., dtype=float)")
 
     def closed(series, idx):
         col = ("col", coords, idx)
@@ -261,6 +273,18 @@ def inter(prog, rep):
     q = "virocon._intersection.intersection"
     fn = prog.func(q)
     rep.analysed(fn)
+    # the four series are converted to float first (np.diff and unary minus of unsigned / narrow integers wrap around)
+    pp = [p_ for p_ in fn.positional_params][:4]
+    unconv = []
+    for p_ in pp:
+        conv = [s_ for s_ in ast.walk(fn.node) if isinstance(s_, ast.Assign) and isinstance(s_.targets[0], ast.Name) and s_.targets[0].id == p_ and isinstance(s_.value, ast.Call)
+                and ast.unparse(s_.value.func) in ("np.asarray", "np.array", "numpy.asarray", "numpy.array") and s_.value.args and ast.unparse(s_.value.args[0]) == p_
+                and any(k.arg == "dtype" and ast.unparse(k.value) in ("float", "np.float64", "numpy.float64") for k in s_.value.keywords)]
+        if not conv:
+            unconv.append(p_)
+    rep.check(not unconv, "C17.float", f"{q}:series", fn.where(), "x1, y1, x2, y2 are converted to float",
+              f"{unconv} used in the caller's dtype: intersection of the diagonals of [0,2]^2 given as uint8 returns no point, as uint64 the wrong point (2, 2): differences of "
+              "descending edges and -x wrap around; convert with np.asarray(..., dtype=float)")
     b = builder(prog, fn, inline=False)
     cfg = cfg_of(fn)
     rets = [s for s in cfg.all_stmts() if isinstance(s, ast.Return)]
